@@ -531,7 +531,7 @@ notation!(
 		NestMembers {
 			= *attribute_name_index => attribute_name_index if pool_has_utf8(pool, attribute_name_index, b"NestMembers")?,
 			mut attribute_name_index: u16 nowrite = attribute_name_index,
-			const attribute_length: u32 = 2 * classes.len(),
+			const attribute_length: u32 = 2 + 2 * classes.len(),
 			//number_of_classes: u16,
 			mut classes: Vec<u16> [u16],
 		},
